@@ -38,8 +38,24 @@ pub fn tick(c: &Ctrl, what: String) -> io::Result<()> {
             c.failed = true;
             return Err(io::Error::new(kind, "injected"));
         }
+        // "the source ends here": every later read finds the end of the data as well
+        if kind == EOF_MARK && idx > k {
+            return Err(io::Error::new(kind, "injected"));
+        }
     }
     Ok(())
+}
+
+/// pseudo kind of the fault "the reader has no more data from the k-th read on" (a short / empty read, not an error)
+pub const EOF_MARK: io::ErrorKind = io::ErrorKind::Unsupported;
+
+/// account for one read call; `Ok(true)` = the source has ended (return an empty read), Err = injected failure
+pub fn tick_read(c: &Ctrl, what: String) -> io::Result<bool> {
+    match tick(c, what) {
+        Ok(()) => Ok(false),
+        Err(e) if e.kind() == EOF_MARK => Ok(true),
+        Err(e) => Err(e),
+    }
 }
 
 pub fn kind_of(s: &str) -> io::ErrorKind {
@@ -48,6 +64,7 @@ pub fn kind_of(s: &str) -> io::ErrorKind {
         "UnexpectedEof" => io::ErrorKind::UnexpectedEof,
         "ConnectionReset" => io::ErrorKind::ConnectionReset,
         "WriteZero" => io::ErrorKind::WriteZero,
+        "Eof" => EOF_MARK,
         _ => panic!("bad kind {s}"),
     }
 }
@@ -56,7 +73,9 @@ pub fn kind_of(s: &str) -> io::ErrorKind {
 pub struct FRead<R>(pub R, pub Ctrl);
 impl<R: io::Read> io::Read for FRead<R> {
     fn read(&mut self, buf: &mut [u8]) -> io::Result<usize> {
-        tick(&self.1, format!("read {}", buf.len()))?;
+        if tick_read(&self.1, format!("read {}", buf.len()))? {
+            return Ok(0);
+        }
         self.0.read(buf)
     }
 }
@@ -73,7 +92,9 @@ impl<W: io::Write> io::Write for FWrite<W> {
 pub struct FReadAt<R>(pub R, pub Ctrl);
 impl<R: sync::ReadAt> sync::ReadAt for FReadAt<R> {
     fn read_at(&self, pos: u64, buf: &mut [u8]) -> io::Result<usize> {
-        tick(&self.1, format!("read_at {} {}", pos, buf.len()))?;
+        if tick_read(&self.1, format!("read_at {} {}", pos, buf.len()))? {
+            return Ok(0);
+        }
         self.0.read_at(pos, buf)
     }
 }
@@ -138,11 +159,16 @@ impl<O: fsm::OutboardMut> fsm::OutboardMut for FOb<O> {
 pub struct FStreamReader<R>(pub R, pub Ctrl);
 impl<R: iroh_io::AsyncStreamReader> iroh_io::AsyncStreamReader for FStreamReader<R> {
     async fn read_bytes(&mut self, len: usize) -> io::Result<Bytes> {
-        tick(&self.1, format!("read {}", len))?;
+        if tick_read(&self.1, format!("read {}", len))? {
+            return Ok(Bytes::new());
+        }
         self.0.read_bytes(len).await
     }
     async fn read<const L: usize>(&mut self) -> io::Result<[u8; L]> {
-        tick(&self.1, format!("read {}", L))?;
+        // by contract a fixed-size read fails with UnexpectedEof at the end of the stream
+        if tick_read(&self.1, format!("read {}", L))? {
+            return Err(io::ErrorKind::UnexpectedEof.into());
+        }
         self.0.read::<L>().await
     }
 }
@@ -163,7 +189,9 @@ impl<W: iroh_io::AsyncStreamWriter> iroh_io::AsyncStreamWriter for FStreamWriter
 pub struct FSliceReader<R>(pub R, pub Ctrl);
 impl<R: fsm::AsyncSliceReader> fsm::AsyncSliceReader for FSliceReader<R> {
     async fn read_at(&mut self, offset: u64, len: usize) -> io::Result<Bytes> {
-        tick(&self.1, format!("read_at {} {}", offset, len))?;
+        if tick_read(&self.1, format!("read_at {} {}", offset, len))? {
+            return Ok(Bytes::new());
+        }
         self.0.read_at(offset, len).await
     }
     async fn size(&mut self) -> io::Result<u64> {
